@@ -169,6 +169,13 @@ impl Wallet {
     /// [private_key - 32 bytes]
     /// [public_key - 33 bytes]
     pub fn deserialize_from_disk(&mut self, bytes: &[u8]) {
+        if bytes.len() < WALLET_SIZE {
+            warn!(
+                "wallet file is truncated ({:?} bytes). keeping the current keys",
+                bytes.len()
+            );
+            return;
+        }
         self.private_key = bytes[0..32].try_into().unwrap();
         self.public_key = bytes[32..65].try_into().unwrap();
     }
